@@ -75,13 +75,24 @@ CLAIMED = {
              "C03_any_body_simulates_reference_partial): any tree of writes, CreateAccount calls (where evm.create may make them) and "
              "nested frames on ANY accounts — cached, first loaded inside a frame, absent and created inside a frame that is then "
              "reverted (createObjectChange / resetObjectChange are undone too) — ends related to the reference; with sim_init this is "
-             "the whole body of a transaction without precompile calls; ApplyEvmMsg's EIP-3529 refund equals go-ethereum's for all inputs and never exceeds a fifth of the gas used. A "
+             "the whole body of a transaction without precompile calls; and through the WRITE-BACK (SDBTx.lean, "
+             "C03_transaction_commit_matches_reference_partial): over the same persisted data, after ANY such body Nibiru's Commit leaves "
+             "at EVERY address what go-ethereum's end-of-transaction write-back (GethSpec.commit, per-address characterisation in "
+             "SDBSpecCommit.lean) leaves — same nonce, code hash, balance (an account go-ethereum deletes as empty is an empty record in "
+             "Nibiru) and the same value in every slot; proof: journal.dirties is the per-address count of surviving entries through "
+             "appends and Revert, dirtied addresses stay cached and are materialised in the reference, undirtied ones show the store "
+             "(four invariants carried over the nested body), then a per-address case analysis of the two commits; side conditions on "
+             "the final state: written-back balances are whole multiples of 10^12 wei, an account that ends empty without "
+             "self-destructing has no storage; a concrete transaction is evaluated by the kernel as witness; ApplyEvmMsg's EIP-3529 refund equals go-ethereum's for all inputs and never exceeds a fifth of the gas used. A "
              "cross-implementation oracle reports the first call on which Nibiru's and go-ethereum's real StateDBs answer differently.",
-        note="NOT proved: the reference's Commit against Nibiru's Commit "
-             "(what Nibiru's Commit persists is proved under C04) — there the observational equality is established by the correspondence "
+        note="Proved for one transaction at a time; chaining transactions needs the relation to tolerate go-ethereum's deletion of empty accounts "
+             "(Nibiru persists them) at the start of the next one — handled by the harness's rendering, not by a theorem. Transactions that "
+             "call a Nibiru precompile are outside every theorem here (C04/C08); there the equality is established by the correspondence "
              "runs only. Trusted: Lean kernel; the interpreter (same code on both sides); harness; GethSpec's fidelity to go-ethereum "
              "is itself validated by differential execution, not proved. Precompile calls are excluded here (C04/C08).",
-        technique="Lean 4 proof (induction over call sequences on the reference semantics; per-entry journal inverse lemmas) + three-way "
+        technique="Lean 4 proof (refinement: journaled StateDB model ~ copy-on-snapshot reference, simulation relation preserved by every call, "
+                  "mutual structural induction over nested call frames, invariants on (state, journal), per-address comparison of the two "
+                  "write-backs) + three-way "
                   "differential correspondence (Lean spec / real go-ethereum StateDB / real Nibiru StateDB) + EVM-level differential "
                   "execution against go-ethereum's state transition",
         ref="§7 C03"),
